@@ -9,6 +9,8 @@ import (
 	"time"
 
 	"github.com/andydunstall/piko/verifsim/simkit"
+	"github.com/andydunstall/piko/verifsim/simnet"
+	"github.com/gorilla/websocket"
 )
 
 // C08: HTTP transparency and the 400/502/504 mapping, locally and through a
@@ -30,9 +32,14 @@ func genHTTP(rng *simkit.Rand, tier string, idx int) *simkit.Case {
 	c.Cfg["stream_delay_us"] = []int64{0, 200, 2000}[rng.Intn(3)]
 	c.Cfg["segment"] = []int64{0, 300, 800}[rng.Intn(3)]
 	c.Cfg["apps"] = int64(rng.Range(1, 3))
+	c.Cfg["agent"] = int64(rng.Intn(3) / 2) // one run in three: the upstream is piko's agent reverse proxy in front of a plain HTTP service
 	n := rng.Range(4, 24)
 	for i := 0; i < n; i++ {
-		c.Script = append(c.Script, simkit.Op{K: "req", A: rng.Intn(1 << 30), B: rng.Intn(1 << 16), C: rng.Intn(1 << 16)})
+		k := "req"
+		if rng.Intn(8) == 0 {
+			k = "ws"
+		}
+		c.Script = append(c.Script, simkit.Op{K: k, A: rng.Intn(1 << 30), B: rng.Intn(1 << 16), C: rng.Intn(1 << 16)})
 	}
 	return c
 }
@@ -180,12 +187,16 @@ func execHTTP(run *simkit.Run) {
 	writeTO := time.Duration(c.Int("write_timeout_ms")) * time.Millisecond
 	for i := 0; i < c.Int("nodes"); i++ {
 		w.startNode(nodeOpts{interval: 50 * time.Millisecond, proxyTimeout: timeout, writeTimeout: writeTO})
-		if run.Failed() {
+		if run.Stop() {
 			return
 		}
 	}
 	for i := 0; i < c.Int("apps"); i++ {
-		if _, err := w.listen("e1", "http", 0, ""); err != nil {
+		kind := "http"
+		if c.On("agent") {
+			kind = "agent"
+		}
+		if _, err := w.listen("e1", kind, 0, ""); err != nil {
 			run.Fail("SIM.setup", "listen", "%v", err)
 			return
 		}
@@ -195,11 +206,15 @@ func execHTTP(run *simkit.Run) {
 		return
 	}
 	for i, op := range c.Script {
-		if run.Failed() {
+		if run.Stop() {
 			break
 		}
 		run.Step = i
 		run.Steps++
+		if op.K == "ws" {
+			w.wsUpgrade(op, timeout)
+			continue
+		}
 		p := w.planHTTP(op, timeout)
 		w.mu.Lock()
 		w.specs[p.req.ID] = p.spec
@@ -209,7 +224,10 @@ func execHTTP(run *simkit.Run) {
 		w.judgeHTTP(p, res, timeout, writeTO)
 	}
 	run.Probe("nontrivial")
-	run.Summary = fmt.Sprintf("http nodes=%d timeout=%v write_timeout=%v apps=%d requests=%d", len(w.nodes), timeout, writeTO, c.Int("apps"), w.requests)
+	if c.On("agent") {
+		run.Probe("c08.via_agent_reverse_proxy")
+	}
+	run.Summary = fmt.Sprintf("http nodes=%d timeout=%v write_timeout=%v apps=%d agent=%v requests=%d", len(w.nodes), timeout, writeTO, c.Int("apps"), c.On("agent"), w.requests)
 }
 
 func (w *cluster3) judgeHTTP(p *c08Plan, res *httpResult, timeout, writeTO time.Duration) {
@@ -354,6 +372,59 @@ func (w *cluster3) judgeHTTP(p *c08Plan, res *httpResult, timeout, writeTO time.
 		run.Fail("C08.response", "header-added", "%s: client got headers %v the upstream did not send", tag, extra)
 	}
 	run.Probe("c08.transparent_exchange_checked")
+}
+
+// wsUpgrade: a WebSocket upgrade through the HTTP route is not subject to the
+// proxy timeout: the upgraded connection stays usable although nothing is sent
+// for longer than the timeout.
+func (w *cluster3) wsUpgrade(op simkit.Op, timeout time.Duration) {
+	run := w.run
+	r := simkit.NewRand(uint64(op.A) ^ uint64(op.B)<<20)
+	live := w.liveNodes()
+	entry := live[r.Intn(len(live))]
+	hold := timeout + timeout/2 + time.Duration(r.Intn(2000))*time.Millisecond
+	if hold > 40*time.Second {
+		hold = 40 * time.Second // (the proxy's http write timeout does not apply to hijacked connections)
+	}
+	id := w.newID()
+	w.mu.Lock()
+	w.specs[id] = &respSpec{WS: true, Delay: hold}
+	w.mu.Unlock()
+	w.requests++
+	d := websocket.Dialer{NetDialContext: simnet.DialContext, HandshakeTimeout: 20 * time.Second}
+	hdr := http.Header{"X-Piko-Endpoint": {"e1"}, "X-Verif-Id": {id}}
+	t0 := time.Now()
+	c, resp, err := d.Dial(fmt.Sprintf("ws://%s:8000/ws/%s", entry.host, segments[r.Intn(len(segments))]), hdr)
+	tag := fmt.Sprintf("%s websocket upgrade via %s held idle for %v (proxy timeout %v)", id, entry.id, hold, timeout)
+	if err != nil {
+		st := 0
+		if resp != nil {
+			st = resp.StatusCode
+		}
+		run.Fail("C08.map", "websocket-upgrade-refused", "%s: handshake failed (status %d): %v", tag, st, err)
+		return
+	}
+	defer c.Close()
+	if st := resp.Header.Get("X-Stamp-Endpoint"); st != "e1" {
+		run.Fail("C01.misroute", "http-delivered-to-other-endpoint", "%s: upgraded by an upstream of %q", tag, st)
+	}
+	_ = c.SetReadDeadline(time.Now().Add(hold + 20*time.Second))
+	_, msg, err := c.ReadMessage()
+	if err != nil {
+		run.Fail("C08.map", "timeout-applied-to-websocket", "%s: the connection was cut after %v: %v", tag, time.Since(t0), err)
+		return
+	}
+	if el := time.Since(t0); el < hold {
+		run.Fail("C08.map", "websocket-message-early", "%s: first message after %v", tag, el)
+	}
+	_ = c.WriteMessage(websocket.TextMessage, []byte("ping-"+id))
+	_, msg, err = c.ReadMessage()
+	if err != nil || string(msg) != "echo:ping-"+id {
+		run.Fail("C08.response", "websocket-echo", "%s: echo failed: %q %v", tag, msg, err)
+		return
+	}
+	run.Logf("%s -> ok", tag)
+	run.Probe("c08.websocket_held_past_timeout")
 }
 
 func init() {
